@@ -49,11 +49,21 @@ func c13Rank(p []string, k int) int {
 func VerifC13Policy() {
 	n := int(verifParam("decls", 2))
 	nPat := int(verifParam("patterns", int64(len(c13Patterns))))
+	pool := c13Patterns
+	if mask := verifParam("patmask", 0); mask != 0 { // a sub-pool, bit i = c13Patterns[i]
+		pool = nil
+		for i, pt := range c13Patterns {
+			if mask&(1<<uint(i)) != 0 {
+				pool = append(pool, pt)
+			}
+		}
+		nPat = len(pool)
+	}
 	methods := []string{"GET", "POST"}
 	decls := make([]c13Decl, n)
 	for i := range decls {
 		decls[i] = c13Decl{method: methods[verifChoose(fmt.Sprintf("d%d_method", i), 2)],
-			pat: c13Patterns[verifChoose(fmt.Sprintf("d%d_pat", i), nPat)], name: fmt.Sprintf("R%d", i)}
+			pat: pool[verifChoose(fmt.Sprintf("d%d_pat", i), nPat)], name: fmt.Sprintf("R%d", i)}
 		for j := 0; j < i; j++ { // the same (method, pattern) twice is one declaration
 			verifAssume(!(decls[j].method == decls[i].method && decls[j].url() == decls[i].url()))
 		}
